@@ -172,6 +172,7 @@ def run(chk):
     twins.rule_common_flag(chk, P, 'Z1', floor=6)
     twins.rule_wrapper_constants(chk, P, 'X3', floor=150)
     twins.rule_arch_siblings(chk, P, 'X6', floor=60)
+    twins.rule_token_agreement(chk, P, 'K1', floor=150)
     run_r4(chk, P)
     # R3b shared with C20
     from . import c20
